@@ -1589,3 +1589,42 @@ def c06_l(ctx):
                                                                if w.ast is not None])
     if n == 0:
         raise AnchorMissing('no NpyArray method stores through the memory map')
+
+
+@obligation('C06-m', 'T1 T5', 'deleting the last batch always takes it out of the count: every '
+            'feasible path through ArrayStore.__delitem__ that returns passes the decrement',
+            floor=1,
+            necessary='a deleted batch that is still counted is reported (and served from whatever '
+                      'the array holds there) although the corresponding in-memory sequence no '
+                      'longer has it')
+def c06_m(ctx):
+    cls = ctx.cls('elfi.store:ArrayStore')
+    m = ctx.own_method(cls, '__delitem__')
+    ex = ctx.ex(m)
+    cfg = cfg_of(m)
+    decs = [n for n in own_nodes(m.node) if isinstance(n, ast.AugAssign) and
+            isinstance(n.op, ast.Sub) and
+            match(ex.term(n.target), pattern('self.n_batches')) is not None and
+            ex.term(n.value) == ('const', 1)]
+    if not decs:
+        ctx.bad(m, 'count decremented', 'no `self.n_batches -= 1` in __delitem__', fn=m,
+                node=m.node)
+        return
+    # tests whose outcome is already decided by the refusals before them
+    assumed = []
+    for t in cfg.nodes:
+        if t.kind != 'test' or t.ast is None or not isinstance(t.stmt, ast.If):
+            continue
+        tt, want = ex.term(t.ast, t), True
+        while tt[0] == 'unary' and tt[1] == 'not':
+            tt, want = tt[2], not want
+        for (g, pol, _) in ctx.guards(m, t.stmt, all_dominating=True):
+            if g == tt:
+                assumed.append((t, pol if want else not pol))
+                break
+    dn = [ctx.node(m, d) for d in decs]
+    free = cfg.exists_path_assuming(cfg.entry, cfg.ret, avoiding=dn, assumed=assumed)
+    ctx.check(not free, m, 'every feasible return passes the decrement',
+              'n_batches -= 1 (the test around it repeats what the refusals established)',
+              '__delitem__ can return without taking the deleted batch out of the count', fn=m,
+              node=decs[0])
